@@ -223,6 +223,8 @@ def cstep (s : CState) : Option CState :=
                     (if ok then .ok else .ioerr) none)
     | .pull :: _ => let (s', r, v) := pullF s; some (finishOp s' r v)
     | .clear :: _ => let (s', r) := clearF s; some (finishOp s' r none)
+    -- a Push of a value of another type returns its error before touching anything
+    | .reject :: _ => some (finishOp s .rejected none)
   | .pushSend =>
     -- m.writable <- m.chunk; m.writers.Add(1); go m.write()
     match s.m.chunk with
